@@ -630,6 +630,13 @@ def run(ctx):
         sc.update(n=n_long, disc_answer=rng.choice([0, 0, 129]), loss={'128': 1, '255': 1} if n_long < 1000 else {}, fault=None, marker=rng.choice(['every', 'last', 'estimate']))
         scripts.append(sc)
         ctx.event('object-longer-than-128-segments')
+        # the discovery Interest answered by a segment whose number ends in a zero octet / sits at a width boundary of its encoding
+        for k_disc in (128, 255, 256, 257, 512, 65535, 65536):
+            if k_disc < n_long and (n_long < 1000 or k_disc in (256, 65536)):
+                sc = gen_script(rng)
+                sc.update(n=n_long, disc_answer=k_disc, loss={}, fault=None, marker=rng.choice(['every', 'last']))
+                scripts.append(sc)
+                ctx.event('discovery-answered-by-a-segment-beyond-255' if k_disc > 255 else 'discovery-answered-by-segment-128-to-255')
     for steps in ([(3, 3600)], [(3, -3600)], [(1, 86400), (120, -86400)], [(55, 7200)], [(205, 10)]):
         for retry_ in (1, 3):
             sc = gen_script(rng)
@@ -657,6 +664,6 @@ def run(ctx):
         obs, S = execute_concurrent(sc)
         judge_concurrent(ctx, sc, obs, S)
     for k in ('fetch-while-the-wall-clock-is-stepped', 'fetch-after-an-abandoned-fetch-of-the-same-object', 'object-longer-than-128-segments', 'marker-estimate', 'marker-other-type', 'marker-early-only', 'freshness-None', 'freshness-0', 'outcome-done', 'outcome-timeout', 'outcome-nack', 'outcome-valfail', 'concurrent-fetch', 'concurrent-outcome-done', 'concurrent-outcome-timeout',
-              'concurrent-data-shared-between-fetchers', 'one-shot-name-with-lost-discovery', 'validator-via-app-default', 'content-type-omitted', 'validator-form-lambda', 'validator-form-object', 'validator-form-partial'):
+              'concurrent-data-shared-between-fetchers', 'one-shot-name-with-lost-discovery', 'discovery-answered-by-a-segment-beyond-255', 'validator-via-app-default', 'content-type-omitted', 'validator-form-lambda', 'validator-form-object', 'validator-form-partial'):
         ctx.need_event(k)
     ctx.assumptions = ['an object without any final-block marker is outside the statement', 'the legacy front-end is the one segment_fetcher uses']
